@@ -106,6 +106,16 @@ func init() {
 				patch = gen.Mutate(c.R, prof, t)
 			}
 			patch = sprinkleNulls(c.R, patch, i%3 != 0)
+			if i%5 == 4 {
+				// sibling members several levels down, some absent from the target, some null
+				var pp any
+				t, pp = gen.DeepChainPair(c.R, prof, false)
+				patch = sprinkleNulls(c.R, pp, true)
+				if c.R.Chance(0.3) {
+					t = map[string]any{"unrelated": 1.0}
+				}
+				c.Feature("deep_chain_pairs")
+			}
 			c12Case(c, ref.ToJSON(t), ref.ToJSON(patch))
 		},
 	})
